@@ -72,3 +72,24 @@ func f(m map[string]int) { if m == nil { m = make(map[string]int) }; m["k"] = 1 
 	}
 	return false
 }
+
+type snippetFile struct {
+	file *ast.File
+	fset *token.FileSet
+	pkg  *types.Package
+}
+
+func checkSnippetFset(src string) (*snippetFile, *types.Info, error) {
+	fset := token.NewFileSet()
+	f, err := parser.ParseFile(fset, "snippet.go", src, 0)
+	if err != nil {
+		return nil, nil, err
+	}
+	info := &types.Info{Types: map[ast.Expr]types.TypeAndValue{}, Uses: map[*ast.Ident]types.Object{}, Defs: map[*ast.Ident]types.Object{}, Selections: map[*ast.SelectorExpr]*types.Selection{}, Scopes: map[ast.Node]*types.Scope{}}
+	conf := types.Config{}
+	pkg, err := conf.Check(modPath+"/snippet", fset, []*ast.File{f}, info)
+	if err != nil {
+		return nil, nil, err
+	}
+	return &snippetFile{f, fset, pkg}, info, nil
+}
